@@ -24,20 +24,23 @@ type thread struct {
 type Choice struct{ Pick, Opts int }
 
 var (
-	mu       sync.Mutex // protects nothing at run time (one thread runs); guards setup/teardown
-	active   bool
-	threads  []*thread
-	cur      *thread
-	prefix   []int    // forced picks for the first scheduling points
-	Trace    []Choice // decisions taken in this run
-	Sched    []int    // thread id chosen at each scheduling point
-	preempts int
-	MaxPreempt = -1 // <0: unbounded
-	MaxSteps   = 5000
-	steps      int
-	Aborted    string // non-empty: run was cut (step bound, deadlock)
-	finished   chan struct{}
-	Acc        []int // thread id of every logged (sync) access, in execution order
+	mu          sync.Mutex // protects nothing at run time (one thread runs); guards setup/teardown
+	active      bool
+	threads     []*thread
+	cur         *thread
+	prefix      []int    // forced picks for the first scheduling points
+	Trace       []Choice // decisions taken in this run
+	Sched       []int    // thread id chosen at each scheduling point
+	preempts    int
+	MaxPreempt  = -1 // <0: unbounded
+	MaxSteps    = 5000
+	SpinLimit   = 150 // consecutive scheduling points of one thread before a forced hand-over
+	lastRun     = -1
+	consecutive int
+	steps       int
+	Aborted     string // non-empty: run was cut (step bound, deadlock)
+	finished    chan struct{}
+	Acc         []int // thread id of every logged (sync) access, in execution order
 	// Picker, when set, decides the scheduling points beyond the forced prefix:
 	// it gets the ids of the runnable threads (the current one first when
 	// canStay) and returns an index into them.
@@ -108,6 +111,23 @@ func pick(me *thread) *thread {
 	}
 	canStay := me != nil && !me.done && me.blocked == nil
 	n := len(opts)
+	if canStay {
+		if lastRun == me.id {
+			consecutive++
+		} else {
+			lastRun, consecutive = me.id, 1
+		}
+		if consecutive > SpinLimit && n > 1 {
+			// fairness: a thread that has run this long without any other thread being
+			// scheduled is probably spinning on a flag another thread holds; hand over
+			// (not counted as a preemption; recorded so that replays are exact).
+			consecutive = 0
+			Trace = append(Trace, Choice{1, 2})
+			Sched = append(Sched, opts[1].id)
+			lastRun = opts[1].id
+			return opts[1]
+		}
+	}
 	if canStay && MaxPreempt >= 0 && preempts >= MaxPreempt {
 		n = 1 // no preemption budget left: must stay
 	}
@@ -132,6 +152,9 @@ func pick(me *thread) *thread {
 		preempts++
 	}
 	Sched = append(Sched, opts[k].id)
+	if opts[k].id != lastRun {
+		lastRun, consecutive = opts[k].id, 0
+	}
 	return opts[k]
 }
 
@@ -204,6 +227,7 @@ func Run(bodies []func(), forced []int) []Choice {
 	defer mu.Unlock()
 	threads = nil
 	prefix, Trace, Sched, preempts, steps, Aborted, Acc = forced, nil, nil, 0, 0, "", nil
+	lastRun, consecutive = -1, 0
 	finished = make(chan struct{})
 	for i := range bodies {
 		threads = append(threads, &thread{id: i, wake: make(chan struct{}, 1)})
